@@ -286,3 +286,94 @@ Theorem C07_frame_conformant_mid_stream_discharged : forall st, (forall n, morc_
     FrameCBlocks.chain strict_valid (p_blockMode (eff_prefs po) =? 1) (dict_of dk) maxb [] bl.
 Proof. exact c07_conformant_mid_stream. Qed.
 Print Assumptions C07_frame_conformant_mid_stream_discharged.
+
+(* ---- "the compressors emit bytes" (Proofs/ParserBytes.v, ParserBytesStream.v): the block instances have NO run-time check
+   of their output any more; blk_bytes is proved from the models.  The parsers' output is the specification's encoding of
+   a factorisation of the byte-valued source (last conjunct of HcMidSound.RSpec / HcChainSound.RSpec), hence a byte
+   string (BlockSpecProofs.encode_block_bytes). ---- *)
+From LZ4V Require Proofs.ParserBytes Proofs.ParserBytesStream Proofs.BlkOfBytes.
+
+Theorem C07_parser_bytes_mid :
+  forall vrd lim prefixIdx dictIdx s0 srcSize maxOut lo dsrch h4 h8,
+    (forall a, 0 <= vrd a < 256) ->
+    0 <= dictIdx /\ dictIdx <= prefixIdx /\ prefixIdx <= s0 /\ s0 + srcSize < M32 -> 0 <= srcSize ->
+    0 <= lo <= dictIdx ->
+    (forall ip f, s0 <= ip <= HcMid.mi_mflimit s0 srcSize -> dsrch ip = Some f -> HcMidSound.found_ok vrd s0 srcSize lo ip f) ->
+    HcMidSound.tab_lt h4 s0 -> HcMidSound.tab_lt h8 s0 ->
+    match HcMid.mid_compress vrd lim prefixIdx dictIdx s0 srcSize maxOut dsrch h4 h8 with
+    | HcMid.MOk _ _ out _ _ _ => bytes_ok out = true | _ => True end.
+Proof. exact ParserBytes.mid_compress_bytes. Qed.
+Print Assumptions C07_parser_bytes_mid.
+
+Theorem C07_parser_bytes_chain :
+  forall vrd lim prefixIdx dictIdx s0 srcSize maxOut nb,
+    (forall a, 0 <= vrd a < 256) ->
+    65536 <= dictIdx /\ dictIdx <= prefixIdx /\ prefixIdx <= s0 /\ s0 + srcSize < M32 - 65536 ->
+    0 <= srcSize -> 0 <= maxOut -> (lim = FillOutput -> 1 <= maxOut) ->
+    forall t, HcChainSearch.TB t s0 ->
+    match HcChain.hc_compress vrd prefixIdx dictIdx lim s0 srcSize maxOut nb t with
+    | HcChain.COk _ _ out _ _ => bytes_ok out = true | _ => True end.
+Proof. exact ParserBytes.hc_compress_bytes. Qed.
+Print Assumptions C07_parser_bytes_chain.
+
+Theorem C07_parser_bytes_opt :
+  forall vrd lim prefixIdx dictIdx s0 srcSize maxOut nb targetLength ultra fav,
+    (forall a, 0 <= vrd a < 256) ->
+    65536 <= dictIdx /\ dictIdx <= prefixIdx /\ prefixIdx <= s0 /\ s0 + srcSize < M32 - 65536 ->
+    0 <= srcSize -> 0 <= maxOut -> (lim = FillOutput -> 1 <= maxOut) ->
+    forall t, HcChainSearch.TB t s0 ->
+    match HcOpt.opt_compress vrd prefixIdx dictIdx lim s0 srcSize maxOut nb targetLength ultra fav t with
+    | HcChain.COk _ _ out _ _ => bytes_ok out = true | _ => True end.
+Proof. exact ParserBytes.opt_compress_bytes. Qed.
+Print Assumptions C07_parser_bytes_opt.
+
+(* the instances of Proofs/BlkInst*.v: [blk_out ret out = if 0 <? ret then Some out else None], no byte check *)
+Theorem C07_blk_bytes_unguarded_indep : forall level sf sm sh,
+  states_ok sf sm sh -> FrameRoundTrip.blk_bytes (blk_indep level sf sm sh).
+Proof. exact indep_bytes. Qed.
+Print Assumptions C07_blk_bytes_unguarded_indep.
+
+Theorem C07_blk_bytes_unguarded_fast_stream : forall st level,
+  (forall n, lorc_ok (st n)) -> FrameRoundTrip.blk_bytes (blk_fast_linked st level).
+Proof. exact blk_fast_linked_bytes. Qed.
+Print Assumptions C07_blk_bytes_unguarded_fast_stream.
+
+Theorem C07_blk_bytes_unguarded_mid_stream : forall st,
+  (forall n, morc_ok (st n)) -> FrameRoundTrip.blk_bytes (blk_mid_linked st).
+Proof. exact blk_mid_linked_bytes. Qed.
+Print Assumptions C07_blk_bytes_unguarded_mid_stream.
+
+Theorem C07_blk_bytes_unguarded_hc_stream : forall st,
+  (forall n, horc_ok (st n)) -> FrameRoundTrip.blk_bytes (blk_hc_linked st).
+Proof. exact blk_hc_linked_bytes. Qed.
+Print Assumptions C07_blk_bytes_unguarded_hc_stream.
+
+(* Proofs/BlkInstLinked.v's [blk_of]: its guard (d) ("the output is a byte string") always passes under the per-call
+   premises of C11, i.e. blk_of = its unguarded form, which satisfies the contracts *)
+Theorem C07_blk_bytes_unguarded_blk_of :
+  (forall orc, (forall n, BlkInstLinked.fcall_ok (orc n)) ->
+     (forall n h x, BlkInstLinked.blk_fast orc n h x = BlkOfBytes.blk_fast_u orc n h x) /\
+     blk_contract strict_valid (BlkOfBytes.blk_fast_u orc) /\ FrameRoundTrip.blk_bytes (BlkOfBytes.blk_fast_u orc)) /\
+  (forall orc, (forall n, BlkInstLinked.hcall_ok (orc n)) ->
+     (forall n h x, BlkInstLinked.blk_mid orc n h x = BlkOfBytes.blk_mid_u orc n h x) /\
+     blk_contract strict_valid (BlkOfBytes.blk_mid_u orc) /\ FrameRoundTrip.blk_bytes (BlkOfBytes.blk_mid_u orc)) /\
+  (forall orc, (forall n, BlkInstLinked.ocall_ok (orc n)) ->
+     (forall n h x, BlkInstLinked.blk_opt orc n h x = BlkOfBytes.blk_opt_u orc n h x) /\
+     blk_contract strict_valid (BlkOfBytes.blk_opt_u orc) /\ FrameRoundTrip.blk_bytes (BlkOfBytes.blk_opt_u orc)).
+Proof.
+  split; [|split]; intros orc H.
+  - destruct (BlkOfBytes.blk_fast_u_contract orc H) as (A & _ & B). split; [exact (BlkOfBytes.blk_fast_guard_true orc H) | split; assumption].
+  - destruct (BlkOfBytes.blk_mid_u_contract orc H) as (A & _ & B). split; [exact (BlkOfBytes.blk_mid_guard_true orc H) | split; assumption].
+  - destruct (BlkOfBytes.blk_opt_u_contract orc H) as (A & _ & B). split; [exact (BlkOfBytes.blk_opt_guard_true orc H) | split; assumption].
+Qed.
+Print Assumptions C07_blk_bytes_unguarded_blk_of.
+
+(* non-vacuity: the instance has no byte check (it would pass a non-byte output through), and the blocks the models emit
+   in a session at levels 0 / 2 / 9 / 12 are byte strings *)
+Example C07_blk_bytes_unguarded_run :
+  blk_out 1 [300] = Some [300] /\
+  let x := repeat 97 40 ++ [1;2;3;4;5;6;7;8] ++ concat (repeat [5;6;7;8;9] 12) in
+  let run := fun l => match blk_indep l (fun _ => ctx_init) (fun _ => hc_init) (fun _ => cc_init) 0%nat [] x with
+                      | Some c => (Nat.ltb (length c) (length x), bytes_ok c) | None => (false, false) end in
+  (run 0, run 2, run 9, run 12) = ((true, true), (true, true), (true, true), (true, true)).
+Proof. vm_compute. split; reflexivity. Qed.
